@@ -30,7 +30,7 @@ Hists(t) ==
        { <<a, b>> : a \in All, b \in All }
     \cup { <<a, b, c>> : a \in All, b \in All, c \in All }
     \cup { <<p, d, q, r>> : p \in P, d \in D, q \in P, r \in P }
-    \cup { <<d, e, p, q>> : d \in D, e \in D, p \in P, q \in P }
+    \cup { <<d, e, p, q>> : d \in D, e \in D, p \in P, q \in {"peek", "reqbump", "gget", "rget", "sget"} }
     \cup { <<d, "page", p>> : d \in D, p \in P }
     \cup { <<d, "page", e, p>> : d \in D, e \in D, p \in P }
     \cup { <<"timeout", p>> : p \in P }
@@ -47,5 +47,4 @@ Emit == \E o \in {Ideal!Outcomes(hist)} : \E kp \in {Kept!Outcomes(hist)} :
 GenInv == done \/ (Laws /\ Emit)
 \* Demo: with the deviation some history violates the demand (TLC finds it)
 DemoKept == Kept!MeetsDemand(hist)
-\* the solo outcome of every kind (what the harness checks each kind against on its own page)
 =============================================================================
